@@ -89,11 +89,24 @@ NOTES.update({
  "C20-b": ("the *** marker decided with np.isclose(deme best, global best) instead of ==",
            "two displayed demes with different best fitness within 1e-8 + 1e-5*|best| (near-zero optimum, or large objective offset)"),
 })
+# mutants that the checks missed when they were first run against them, and what was strengthened
+HISTORY = {
+ "C11-a": "first run: missed by C11 (caught by C18 only) - generations recorded without an observed iteration were skipped; C11 clause now falls back to 'evaluated by this deme since the last boundary'",
+ "C20-a": "first run: missed - the recorder itself read best_individual at every boundary, which hides a cache that depends on when the tree was looked at; look pairs (dense vs sparse observation, PairTrace kind 'look') added",
+ "C01-b": "first run: missed - no configuration had an initial sample as wide as the box in >= 4 dimensions; corpus family init* added",
+ "C18-b": "first run: masked by known finding KF-C18-stall (same idle-metaepoch shape); the finding's signature now requires that the generator had proposed candidates for every sleeping deme (clause C18_IdleNotOffered otherwise)",
+ "C10-b": "first run: missed - SkipSameSprout table had parents on one level only; Sprout.tla family skipsame3 (parents on two levels, both dictionary orders) added",
+ "C14-b": "first run: missed - no objective returned NaN, so Python's global generator was never consulted; partially defined objective added to the repeat corpus",
+ "C17-b": "first run: missed - only float64 populations were fed to apply_bounds; single vectors, int64 and float32 forms of integer-valued inputs added",
+ "C05-b": "caught at first run by a side effect (C05_CounterEqualsPerformed on a mid-round snapshot); consults from outside the protocol are now handled explicitly (ban of demes created after the condition was observed true)",
+}
 for sid, (what, needs) in NOTES.items():
     p = Path("/verif/seeded") / sid / "meta.json"
     if p.exists():
         j = json.loads(p.read_text())
         j["what"], j["needs"] = what, needs
         j["breaks_property"] = j["property"]
+        if sid in HISTORY:
+            j["history"] = HISTORY[sid]
         p.write_text(json.dumps(j, indent=1))
         print("updated", sid)
